@@ -6,6 +6,7 @@ mod entropy;
 mod exec;
 mod front;
 mod gen;
+mod gen_tir;
 mod p_c20;
 mod p_entropy;
 mod p_resolver;
